@@ -44,7 +44,7 @@ CLAIMS = {
             "(OPC-5) is_bool_op, is_int_op, _make_bool_expr, _make_int_expr and _elementwise accept exactly each operator's "
             "reference signature (all kind vectors up to arity 3); (OPC-7/AGG) count_true, fold_or, fold_and, alldifferent "
             "on every mix of literals, expressions, arrays and nestings up to 3 items incl. empty forms, and over arrays of every shape with axis lengths 0..3 (function and method forms); conv2d windows and "
-            "shapes; four_neighbors = in-bounds orthogonal neighbours with sibling order agreement."
+            "shapes; four_neighbors = in-bounds orthogonal neighbours with sibling order agreement. OPC-6A also passes operands whose elements are compound expressions of the same family built with the library's own operators (A op (B - C), A op (B + C), A op (B & C), A op (B | C))."
         ),
         note="Trusted: the abstract evaluator and the reference table REF; the element kernel is uniform in the element index (two-element arrays) and conv2d/four_neighbors are judged on arrays up to 3x3/2x4.",
         technique="static analysis: finite-domain abstract evaluation of operator methods against a reference denotation (ast)",
@@ -60,7 +60,7 @@ CLAIMS = {
             "atoms; (SGR-2/3) SAT/UNSAT lines and assignment lines of both modes are parsed into the right variables with "
             "bool/int types, undecided keys stay None; (SGR-4/5) description = declarations, constraints, key line naming "
             "exactly the registered keys in the syntax the wrapper parses; (SGR-6) native operators' operand layout and "
-            "length guards; (SGR-7) name -> class -> external entry point. Conversions run in sequence under a model of id() in which the addresses of a finished conversion's temporaries are reused; 16 nested trees are printed and the text, read back with the Sugar grammar (n-ary +, left-associated -), must mean what the tree means. Not decided: the external solvers."
+            "length guards; (SGR-7) name -> class -> external entry point. Conversions run in sequence under a model of id() in which the addresses of a finished conversion's temporaries are reused; 16 nested trees are printed and the text, read back with the Sugar grammar (n-ary +, left-associated -), must mean what the tree means. Constraints are posted one at a time and in batches in any interleaving (single, batch, literal, batch): all stay posted, in order. Not decided: the external solvers."
         ),
         note="Trusted: CspuzSugarInterface.java as the definition of the wire format; the Sugar grammar name table in sa/rules/c03.py; pycsugar/enigma_csp/cspuz_core share that format.",
         technique="static analysis: Java println-template extraction + abstract evaluation of printer/parsers (ast, regex)",
@@ -79,7 +79,7 @@ CLAIMS = {
             "`is None`, established by the catalogued loop shape (REF-1..5, guard facts and def-use) or, for a differently written "
             "loop, by a uniformity vocabulary over all reachable code (REF-V); neither alone can raise a violation. (REF-6) the "
             "native/fallback partition of the six backends through the class hierarchy equals the property's; (REF-7 = SGR-2..5) "
-            "deduction-mode replies built from the Java wrapper's templates are parsed correctly. Not decided: that "
+            "deduction-mode replies built from the Java wrapper's templates are parsed correctly; REF-E also covers programs with no variable or one variable; (VID-5) every form of add_answer_key's argument (nestings, one-shot iterables) registers every variable. Not decided: that "
             "refute-and-resolve computes the intersection of all models (the idea itself), the external solvers."
         ),
         note="Trusted: the refute-and-resolve idea; the Java wrapper as format definition; the uniformity argument that carries the finite scenarios to all programs. A loop that is neither in the catalogued shape nor inside the REF-V vocabulary makes the check exit 2, not pass.",
@@ -96,7 +96,7 @@ CLAIMS = {
             "explicit argument wins, None reads config.default_backend at call time, all six names resolve to their classes, "
             "unknown names raise ValueError, find_answer/solve pass their own argument; (CFG-4) every graph function with a "
             "native route emits native operators exactly when argument-else-config (set after import) says so, never for "
-            "acyclic connectivity, division variant governed by its own flag, path form raises when off. CFG-3 also covers modules that are installed but fail to import (absent / broken / importable: 81 combinations): only importable ones count."
+            "acyclic connectivity, division variant governed by its own flag, path form raises when off. CFG-3 also covers modules that are installed but fail to import (absent / broken / importable: 81 combinations): only importable ones count. find_answer/solve are run with natively deducing backends and with backends that fall back to the refinement loop (NotImplementedError, then sat, then unsat): exactly one backend object, of the class the call names."
         ),
         note="Trusted: the abstract evaluator; importability modelled as ImportError from the import statement.",
         technique="static analysis: exhaustive finite-domain abstract evaluation of configuration/dispatch/gating code (ast)",
@@ -184,7 +184,7 @@ CLAIMS = {
             "(GEN-1) generate_problem under all 3^4 x 2 x 2 scripted callback behaviours returns None or a problem whose own "
             "solver call was SAT and whose answer passed uniqueness; (GEN-2, PUR-2) every update ArrayBuilder2D proposes on 4 "
             "boards x 8 option sets keeps range, choice set, point symmetry and adjacency, and copy_with_update/neighbour "
-            "generation never mutate or share rows with the previous problem. If a state word is not bounded for arbitrary seeds, XorShift(seed).next() is evaluated for seeds around 2**32 and an output outside [0, 2**32) is reported. Not decided: xorshift's statistical quality."
+            "generation never mutate or share rows with the previous problem. If a state word is not bounded for arbitrary seeds, XorShift(seed).next() is evaluated for seeds around 2**32 and an output outside [0, 2**32) is reported. The adjacency option is evaluated as a flag and as explicit offset lists (king moves, the 5x5 square). (RNG-9) the puzzle generators whose output bench/generator.py pins under the deterministic PRNG reach no use of Python's random / numpy.random / secrets (call graph inside the puzzle module). Not decided: xorshift's statistical quality."
         ),
         note="Trusted: the abstract evaluator; uniformity is argued from whole-block acceptance + a + x % w + the proven generator range.",
         technique="static analysis: import/name confinement scan, bit-width abstract interpretation, abstract evaluation with scripted generators/callbacks (ast)",
@@ -253,6 +253,7 @@ CLAIMS = {
             "strictly lower-ranked neighbour; adjacent ranks pairwise distinct; at least n rank values). A deviation is triaged by "
             "enumerating its projection onto the edge flags against the forests of the same graph: a wrongly admitted/rejected edge "
             "set is reported as VIOLATION with that witness, otherwise undecided (exit 2)."
+            " (ENC-H) the function is evaluated on seven calls alone and as a sequence repeated twice in one interpreter state: identical constraints both times (nothing is carried from call to call)."
         ),
         note="Trusted: exactness of the reference schema (DESIGN.md C09) and uniformity of the encoding in the graph; the abstract evaluator.",
         technique="static analysis: abstract evaluation + canonical-form comparison of the generated constraint schema against a reference schema (ast)",
@@ -268,7 +269,8 @@ CLAIMS = {
             "per label tied to label equality, native connectivity of each, non-emptiness unless allowed, root labels). Deviations "
             "are triaged by enumerating the projection onto the labels against the graph-theoretic definition (VIOLATION with a "
             "witness labelling, else undecided). (ALG-10) grid form: (y, x) roots become y*width+x on the row-major grid graph, "
-            "integer roots rejected."
+            "integer roots rejected; root lists given as list, tuple and one-shot iterable (compass.py passes a map object)."
+            " (ENC-H) the function is evaluated on seven calls alone and as a sequence repeated twice in one interpreter state: identical constraints both times (nothing is carried from call to call)."
         ),
         note="Trusted: exactness of the reference schemas (DESIGN.md C05), uniformity in the graph; abstract evaluator; documented meaning of the native operator.",
         technique="static analysis: abstract evaluation + canonical-form comparison of the generated constraint schema against a reference schema (ast)",
@@ -285,6 +287,7 @@ CLAIMS = {
             "'empty, or exactly one simple cycle/path with its visited vertices' (VIOLATION with witness, else undecided). (ALG-9) "
             "frame form on 1x1, 1x2, 2x1 frames: same schema on the lattice graph of _from_grid_frame, result reshaped to "
             "(height+1, width+1); plus the C14 accessor rules (ALG-1..5)."
+            " (ENC-H) the function is evaluated on seven calls alone and as a sequence repeated twice in one interpreter state: identical constraints both times (nothing is carried from call to call)."
         ),
         note="Trusted: exactness of the reference schemas (DESIGN.md C06), uniformity in the graph; abstract evaluator; documented meaning of the native operator.",
         technique="static analysis: abstract evaluation + canonical-form comparison of the generated constraint schema against a reference schema (ast)",
@@ -317,6 +320,7 @@ CLAIMS = {
             "diagonal neighbour, distinct diagonal ranks). Deviations are triaged by enumerating the projection onto the flags "
             "against 'no two adjacent active, inactive connected' on the same grid graph, which also decides agreement between "
             "the grid specialisation and the explicit-graph form (VIOLATION with witness, else undecided). (ALG-6) grid graph."
+            " (ENC-H) the function is evaluated on seven calls alone and as a sequence repeated twice in one interpreter state: identical constraints both times (nothing is carried from call to call)."
         ),
         note="Trusted: exactness of the diagonal-rank reference schema (DESIGN.md C08); abstract evaluator.",
         technique="static analysis: abstract evaluation + canonical-form comparison of the generated constraint schema against a reference schema (ast)",
@@ -333,7 +337,7 @@ CLAIMS = {
             "of the 1x1, 1x2 and 2x2 frames (about 4000) 'active nodes connected in the split graph' must equal 'all active segments "
             "lie on one strand with straight pass-through at 4-way points' (graph search on the captured structure, so a consistent "
             "swap of the two pass-through halves is accepted); the connectivity constraint itself is C04's schema; (ENC-S) the whole "
-            "constraint set equals the reference schema (informational when FDT-1 and SPLIT decide); (CFG-4) native gating."
+            "constraint set equals the reference schema (informational when FDT-1 and SPLIT decide); (CFG-4) native gating. SPLIT also evaluates the frames one after the other in ONE interpreter state (a frame, its transpose with the same node count, ...): the split graph must be the one a fresh state gives."
         ),
         note="Trusted: the abstract evaluator; C04's connectivity schema for the sub-call; frames up to 2x2 stand for all sizes (the construction is uniform per point/segment).",
         technique="static analysis: abstract evaluation, finite-domain table evaluation of local constraints, graph search on the captured split graph (ast)",
